@@ -7,6 +7,7 @@ import Chokan.Model.Server
 import Chokan.Lemmas.Kkc
 import Chokan.Lemmas.Dic
 import Chokan.Gen.Dic
+import Chokan.Props.C03
 
 namespace Chokan.Props.C07
 open Chokan.Server Chokan.Kkc Chokan.Dic
@@ -89,5 +90,68 @@ theorem C07_monotone (alpha : List Nat) (d : Dict) (w x : Word) (key : Str)
 (see C12_guess_total) — the form preceding ない is among the conjugated forms (C12_guess_conjugable). -/
 theorem C07_guess_conjugable : guessCheck Chokan.Gen.Dic.conjTable Chokan.Gen.Dic.guessTable = true := by
   decide +kernel
+
+/-! ### candidate-level visibility -/
+
+theorem addToMap_wf : ∀ (m : List (Str × List Word)) (w : Word), w.reading ≠ [] →
+    (∀ p ∈ m, p.1 ≠ [] ∧ ∀ x ∈ p.2, x.reading = p.1) →
+    ∀ p ∈ addToMap m w.reading w, p.1 ≠ [] ∧ ∀ x ∈ p.2, x.reading = p.1
+  | [], w, hne, _, p, hp => by
+    simp only [addToMap, List.mem_singleton] at hp
+    subst hp
+    exact ⟨hne, fun x hx => by simp only [List.mem_singleton] at hx; rw [hx]⟩
+  | (k, v) :: t, w, hne, hm, p, hp => by
+    unfold addToMap at hp
+    by_cases hk : Kkc.beqStr k w.reading = true
+    · simp only [hk, if_true, List.mem_cons] at hp
+      have hkr : k = w.reading := (Kkc.beqStr_iff _ _).1 hk
+      rcases hp with rfl | hp
+      · have h0 := hm (k, v) List.mem_cons_self
+        refine ⟨h0.1, ?_⟩
+        intro x hx
+        rcases List.mem_append.1 hx with hx | hx
+        · exact h0.2 x hx
+        · simp only [List.mem_singleton] at hx; rw [hx, hkr]
+      · exact hm p (List.mem_cons_of_mem _ hp)
+    · have hk' : Kkc.beqStr k w.reading = false := by
+        cases hq : Kkc.beqStr k w.reading with
+        | false => rfl
+        | true => exact absurd hq hk
+      simp only [hk', Bool.false_eq_true, if_false, List.mem_cons] at hp
+      rcases hp with rfl | hp
+      · exact hm _ List.mem_cons_self
+      · exact addToMap_wf t w hne (fun q hq => hm q (List.mem_cons_of_mem _ hq)) p hp
+
+theorem addStdWord_wf (alpha : List Nat) (d : Dict) (w : Word) (hne : w.reading ≠ []) (hd : Dict.WF d) :
+    Dict.WF (addStdWord alpha d w) :=
+  ⟨addToMap_wf d.std w hne hd.1, hd.2⟩
+
+/-- **A registered word is offered.**  Once the updater has applied an independent word whose non-empty
+reading is spelled in the trie alphabet, every input that begins with that reading gets — in every
+context, with any learned counts, from some number of loop iterations on — a candidate list that
+contains the word's written form followed by the rest of the input, unless the list is cut at `n`
+(lookup: `C07_added_word_found`; lattice and search: `C03_complete_head`, `C02_full`). -/
+theorem C07_registered_word_offered (alpha : List Nat) (d : Dict) (w : Word) (rest : Str) (ctx : Ctx) (f : Freq)
+    (n : Nat) (hn : 1 ≤ n) (hd : Dict.WF d) (hne : w.reading ≠ []) (ha : inAlpha alpha w.reading = true)
+    (hind : w.speech.isAncillary = false) :
+    ∃ fuel0 R, ∀ fuel, fuel0 ≤ fuel →
+      getCandidates genTables (w.reading ++ rest) (addStdWord alpha d w) ctx f n fuel = some R ∧
+      (w.word ++ rest ∈ R.map Cand.text ∨ R.length = n) := by
+  have hlen : 0 < w.reading.length := List.length_pos_iff.2 hne
+  have hslice : slice (w.reading ++ rest) 0 (w.reading.length - 1) = w.reading := by
+    simp only [slice, List.drop_zero]
+    rw [show w.reading.length - 1 + 1 - 0 = w.reading.length by omega, List.take_left']
+    rfl
+  have hw := C07_added_word_found alpha d w ha
+  rw [← hslice] at hw
+  obtain ⟨fuel0, R, h⟩ := C03.C03_complete_head (w.reading ++ rest) (addStdWord alpha d w) ctx f n hn
+    (addStdWord_wf alpha d w hne hd) (w.reading.length - 1) (by simp; omega) w hw hind
+  refine ⟨fuel0, R, ?_⟩
+  intro fuel hf
+  obtain ⟨h1, h2⟩ := h fuel hf
+  refine ⟨h1, ?_⟩
+  rw [show w.reading.length - 1 + 1 = w.reading.length by omega, List.drop_left'] at h2
+  · exact h2
+  · rfl
 
 end Chokan.Props.C07
